@@ -167,16 +167,18 @@ def lean_check(prop_id):
     """Build the property's theorems and audit their axioms.
     Returns dict(obligations, discharged, theorems=[(name, axioms)], broken=[...], checker_cmd)."""
     t0 = time.time()
-    targets = [f"Tuc.Props.{prop_id}", "driver"]
+    from gen_audit import prop_modules, theorem_names
+    mods = prop_modules(prop_id)
+    targets = [f"Tuc.Props.{m}" for m in mods] + ["driver"]
     rc, out = run_cmd(["lake", "build"] + targets, cwd=LEAN)
     res = {"obligations": 0, "discharged": 0, "theorems": [], "broken": [],
-           "checker_cmd": f"cd /verif/lean && lake build Tuc.Props.{prop_id} driver && lake env lean Tuc/Audit/{prop_id}.lean  (#print axioms per theorem; accepted: propext, Classical.choice, Quot.sound)",
+           "checker_cmd": f"cd /verif/lean && lake build {' '.join('Tuc.Props.' + m for m in mods)} driver && lake env lean Tuc/Audit/{prop_id}.lean  (#print axioms per theorem; accepted: propext, Classical.choice, Quot.sound)",
            "build_ok": rc == 0, "build_log": out[-4000:] if rc != 0 else ""}
     if rc != 0:
         res["broken"].append(f"lake build {' '.join(targets)} failed")
         return res
     # forbidden tokens in every Lean source the property's theorems (and the driver) depend on
-    for path in sorted(lean_closure([f"Tuc.Props.{prop_id}", "Driver"])):
+    for path in sorted(lean_closure([f"Tuc.Props.{m}" for m in mods] + ["Driver"])):
         src = strip_comments(open(path).read())
         m = FORBIDDEN.search(src)
         if m:
@@ -195,12 +197,13 @@ def lean_check(prop_id):
             res["discharged"] += 1
         else:
             res["broken"].append(f"theorem {name} depends on {axioms}")
-    # every theorem of the property file must be audited
-    props_src = strip_comments(open(os.path.join(LEAN, "Tuc", "Props", f"{prop_id}.lean")).read())
-    declared = re.findall(r"^\s*(?:@\[[^\]]*\]\s*)?(?:protected\s+)?theorem\s+([A-Za-z0-9_.'?!₀-₉]+)", props_src, re.M)
-    audited = {n.split(".")[-1] for n, _ in res["theorems"]}
+    # every public theorem of the property's files must be audited
+    declared = []
+    for m in mods:
+        declared.extend(theorem_names(m))
+    audited = {n for n, _ in res["theorems"]}
     for d in declared:
-        if d.split(".")[-1] not in audited:
+        if d not in audited:
             res["broken"].append(f"theorem {d} is not audited")
     res["lean_wall_s"] = round(time.time() - t0, 1)
     return res
